@@ -92,6 +92,8 @@ class TreeGen(object):
             k = ["cvs", n]
             for _ in range(n):
                 k += self.check(simple=True)
+            if rng.random() < 0.35:
+                k[6], k[7] = k[2], k[3]      # two checks on the same variable (a range / membership style test)
             k.append(rng.choice(["and", "or", "xor"]))
             if rng.random() < 0.6:
                 k += ["/res%d/%d" % (nid, j + 1) for j in range(n)]
